@@ -10,12 +10,16 @@
     C16_pandas   the types of `S` that contain `c` are exactly the detection path of `c`;
     C02_pandas   another supply order `S'` of the same types gives the same inference path and the same cast column.
 
-  Hypotheses: `Good o c` (named facts about CPython classes, `isna`, the element parsers and
-  `pd.to_datetime`, and exclusion of the known-finding inputs — see PandasWF) and `OutputsGood o`
-  (transformer outputs satisfy `Good` again; validated by the correspondence, not yet proved in Lean).
+  Only hypothesis: `Good o c` on the INPUT column (named facts about CPython classes, `isna`, the element
+  parsers and `pd.to_datetime`, and exclusion of the known-finding inputs — see PandasWF).  It is
+  executable (`goodB`, sound by `goodB_sound`): the driver evaluates it on α(series) for every generated
+  input, so the harness knows for which real inputs the theorems apply.  Closure of `Good` under the 14
+  transformers is proved (`outputs_good`), so nothing is assumed about intermediate columns.
 -/
 import VProofs.Obligations.PandasTypeset
+import VProofs.Obligations.PandasGoodB
 import VProofs.Props.C16
+import VProofs.Props.C14
 namespace V.PandasProps
 open V V.Gen V.Pd
 
@@ -23,7 +27,7 @@ open V V.Gen V.Pd
 theorem fuel_ok (o : ColOracle) (b : Built Ty) (t : Ty) : (pandasTS o b).h t < 64 := by
   show 32 - rank t < 64; omega
 
-theorem C03_pandas (o : ColOracle) (og : OutputsGood o) (S : List Ty) (nd : S.Nodup) (hg : Ty.Generic ∈ S)
+theorem C03_pandas (o : ColOracle) (S : List Ty) (nd : S.Nodup) (hg : Ty.Generic ∈ S)
     (pc : ParentClosedL declared S) (hsub : ∀ t ∈ S, t ∈ completeSet) (c : Column) (hG : Good o c) :
     ∃ b, mkTypeset declared isGeneric S = .ok b ∧
       let res := ptraverse (pandasTS o b).succ 64 b.root c
@@ -34,9 +38,9 @@ theorem C03_pandas (o : ColOracle) (og : OutputsGood o) (S : List Ty) (nd : S.No
   obtain ⟨b, hb, hr, _, ft, hN⟩ := built_typeset o S nd hg pc hsub
   refine ⟨b, hb, ?_⟩
   rw [hr]
-  exact infer_sound (pandasTS o b) (pandas_WF o b ft og) Ty.Generic _ hN 64 (fuel_ok o b _) c hG rfl
+  exact infer_sound (pandasTS o b) (pandas_WF' o b ft) Ty.Generic _ hN 64 (fuel_ok o b _) c hG rfl
 
-theorem C04_pandas (o : ColOracle) (og : OutputsGood o) (S : List Ty) (nd : S.Nodup) (hg : Ty.Generic ∈ S)
+theorem C04_pandas (o : ColOracle) (S : List Ty) (nd : S.Nodup) (hg : Ty.Generic ∈ S)
     (pc : ParentClosedL declared S) (hsub : ∀ t ∈ S, t ∈ completeSet) (c : Column) (hG : Good o c) :
     ∃ b, mkTypeset declared isGeneric S = .ok b ∧
       let res := ptraverse (pandasTS o b).succ 64 b.root c
@@ -45,9 +49,9 @@ theorem C04_pandas (o : ColOracle) (og : OutputsGood o) (S : List Ty) (nd : S.No
   obtain ⟨b, hb, hr, _, ft, hN⟩ := built_typeset o S nd hg pc hsub
   refine ⟨b, hb, ?_⟩
   rw [hr]
-  exact infer_fixpoint (pandasTS o b) (pandas_WF o b ft og) Ty.Generic _ hN 64 (fuel_ok o b _) c hG rfl
+  exact infer_fixpoint (pandasTS o b) (pandas_WF' o b ft) Ty.Generic _ hN 64 (fuel_ok o b _) c hG rfl
 
-theorem C16_pandas (o : ColOracle) (og : OutputsGood o) (S : List Ty) (nd : S.Nodup) (hg : Ty.Generic ∈ S)
+theorem C16_pandas (o : ColOracle) (S : List Ty) (nd : S.Nodup) (hg : Ty.Generic ∈ S)
     (pc : ParentClosedL declared S) (hsub : ∀ t ∈ S, t ∈ completeSet) (c : Column) (hG : Good o c)
     (t : Ty) (ht : t ∈ S) :
     ∃ b, mkTypeset declared isGeneric S = .ok b ∧
@@ -55,7 +59,7 @@ theorem C16_pandas (o : ColOracle) (og : OutputsGood o) (S : List Ty) (nd : S.No
   obtain ⟨b, hb, hr, _, ft, hN⟩ := built_typeset o S nd hg pc hsub
   refine ⟨b, hb, ?_⟩
   rw [hr]
-  exact C16.C16_chain (pandasTS o b) (pandas_WF o b ft og) Ty.Generic 64 (fuel_ok o b _) c hG rfl t (hN.idpath t ht)
+  exact C16.C16_chain (pandasTS o b) (pandas_WF' o b ft) Ty.Generic 64 (fuel_ok o b _) c hG rfl t (hN.idpath t ht)
 
 /-- two supply orders of the same types give permuted adjacency lists -/
 theorem succ_perm (o : ColOracle) (b b' : Built Ty) (hperm : b.edges.Perm b'.edges) (n : Ty) :
@@ -63,7 +67,7 @@ theorem succ_perm (o : ColOracle) (b b' : Built Ty) (hperm : b.edges.Perm b'.edg
   simp only [pandasTS, purify, graphOf]
   exact ((hperm.filter _).map _).map _
 
-theorem C02_pandas (o : ColOracle) (og : OutputsGood o) (S S' : List Ty) (hp : S.Perm S') (nd : S.Nodup)
+theorem C02_pandas (o : ColOracle) (S S' : List Ty) (hp : S.Perm S') (nd : S.Nodup)
     (hg : Ty.Generic ∈ S) (pc : ParentClosedL declared S) (hsub : ∀ t ∈ S, t ∈ completeSet)
     (c : Column) (hG : Good o c) :
     ∃ b b', mkTypeset declared isGeneric S = .ok b ∧ mkTypeset declared isGeneric S' = .ok b' ∧
@@ -99,20 +103,20 @@ theorem C02_pandas (o : ColOracle) (og : OutputsGood o) (S S' : List Ty) (hp : S
     intro e
     rw [mem_presentEdges, mem_presentEdges, hp.mem_iff, hp.mem_iff]
   rw [hr, hr']
-  exact C02.C02_order_indep (pandasTS o b) (pandas_WF o b ft og) (pandasTS o b').succ (succ_perm o b b' hperm)
+  exact C02.C02_order_indep (pandasTS o b) (pandas_WF' o b ft) (pandasTS o b').succ (succ_perm o b b' hperm)
     64 Ty.Generic c hG rfl
 
 /-- the same, stated on what the driver evaluates: whenever the full-engine traversal of the executable
 model returns normally, its result column is contained in its result type and is a fixpoint -/
-theorem C03_pandas_model (o : ColOracle) (og : OutputsGood o) (S : List Ty) (nd : S.Nodup) (hg : Ty.Generic ∈ S)
+theorem C03_pandas_model (o : ColOracle) (S : List Ty) (nd : S.Nodup) (hg : Ty.Generic ∈ S)
     (pc : ParentClosedL declared S) (hsub : ∀ t ∈ S, t ∈ completeSet) (c : Column) (hG : Good o c) :
     ∃ b, mkTypeset declared isGeneric S = .ok b ∧
       ∀ d p, traverse (graphOf o b) 64 b.root c () [] = .ok (d, p, ()) →
         containsB (plast b.root p) d = true ∧
         ptraverse (pandasTS o b).succ 64 b.root d = (d, (ptraverse (pandasTS o b).succ 64 b.root d).2) ∧
         plast b.root (ptraverse (pandasTS o b).succ 64 b.root d).2 = plast b.root p := by
-  obtain ⟨b, hb, h3⟩ := C03_pandas o og S nd hg pc hsub c hG
-  obtain ⟨b', hb', h4⟩ := C04_pandas o og S nd hg pc hsub c hG
+  obtain ⟨b, hb, h3⟩ := C03_pandas o S nd hg pc hsub c hG
+  obtain ⟨b', hb', h4⟩ := C04_pandas o S nd hg pc hsub c hG
   have : b' = b := by rw [hb] at hb'; exact (Except.ok.inj hb').symm
   subst this
   refine ⟨b', hb, ?_⟩
@@ -121,9 +125,30 @@ theorem C03_pandas_model (o : ColOracle) (og : OutputsGood o) (S : List Ty) (nd 
   simp only [e] at h3 h4
   exact ⟨h3.1, Prod.ext h4.1 rfl, h4.2⟩
 
-/-! ### the hypotheses are satisfiable: a concrete column of float strings is `Good`-checkable cell by cell;
-here: the invariant's cell-level parts on the model's own constructor cells -/
-example : CellWF (Cell.ofFloat (.fin 3 1)) ∧ PayWF (Cell.ofFloat (.fin 3 1)) := by
-  refine ⟨⟨by simp [Cell.ofFloat, Cell.blank, FloatV.isNan]⟩, ⟨by intro re im h; simp [Cell.ofFloat, Cell.blank, FloatV.isNan] at h⟩⟩
+/-! ### the hypotheses are satisfiable, and the theorems say something on concrete columns -/
+
+def o0 : ColOracle := { toDatetime := fun _ => .raises "ValueError" }
+/-- complex128 column [1+0j, 2+0j]: inferred Generic → Complex → Float → Integer -/
+def cz : Column :=
+  { dtype := .fam .complex, cells := [Cell.ofComplex (.fin 1 0) (.fin 0 0), Cell.ofComplex (.fin 2 0) (.fin 0 0)],
+    index := ["0", "1"], name := "z" }
+/-- object column [True, None, False]: inferred Generic → Object → Boolean (nullable) -/
+def cb : Column :=
+  { dtype := .object, cells := [Cell.ofBool true, Cell.missing .none_, Cell.ofBool false], index := ["0", "1", "2"], name := "b" }
+
+theorem good_cz : Good o0 cz := goodB_sound _ _ (by decide +kernel)
+theorem good_cb : Good o0 cb := goodB_sound _ _ (by decide +kernel)
+
+/-- the theorems apply to these columns … -/
+example : ∃ b, mkTypeset declared isGeneric completeSet = .ok b ∧
+    containsB (plast b.root (ptraverse (pandasTS o0 b).succ 64 b.root cz).2) (ptraverse (pandasTS o0 b).succ 64 b.root cz).1 = true := by
+  obtain ⟨b, hb, h⟩ := C03_pandas o0 completeSet C14.complete_ok.1 C14.complete_ok.2.1 C14.complete_ok.2.2 (fun _ h => h) cz good_cz
+  exact ⟨b, hb, h.1⟩
+
+/-- … and the model's answers on them are the non-trivial inference chains -/
+example : (match mkTypeset declared isGeneric completeSet with
+    | .ok b => some ((ptraverse (pandasTS o0 b).succ 64 b.root cz).2, (ptraverse (pandasTS o0 b).succ 64 b.root cb).2)
+    | .error _ => none) = some ([.Generic, .Complex, .Float, .Integer], [.Generic, .Object, .Boolean]) := by
+  decide +kernel
 
 end V.PandasProps
